@@ -21,10 +21,7 @@ Print Assumptions C05_cdx_identifiers_nonempty.
 (* every parsed identifier is a component's reference, or the generated one of its traversal position *)
 Theorem C05_cdx_identifiers_origin : forall b i, In i (ids (cdx_unser_nl b)) ->
   exists c cc, i = (if String.eqb (c_ref c) "" then auto_id cc else c_ref c).
-Proof.
-  intros b. apply (cdx_unser_ids (fun i => exists c cc, i = (if String.eqb (c_ref c) "" then auto_id cc else c_ref c))).
-  intros c cc. exists c, cc. reflexivity.
-Qed.
+Proof. exact cdx_identifiers_origin. Qed.
 Print Assumptions C05_cdx_identifiers_origin.
 
 (* generated identifiers of different traversal positions differ (the traversal counter is positive) *)
